@@ -225,6 +225,7 @@ func checkC12(cx *Ctx, r *Report) {
 
 	// --- filter ------------------------------------------------------------------------
 	cx.checkAttrFilter(r)
+	cx.errDisciplineOfHandler(r, kAttr)
 
 	// --- the attributes the filter compares and the answer carries are the user's, unchanged --------------------
 	// (name and name format of an emitted attribute are exactly what storage set: a defaulted or rewritten format
@@ -254,6 +255,11 @@ func checkC12(cx *Ctx, r *Report) {
 	add := func(key string, ls LabelSet, n int, allow, req []string, unch bool) {
 		sinks = append(sinks, sink{key, ls, n, allow, req, unch})
 	}
+	cx.checkStoresUnconditional(r, "R-MUST", "attr", vf, []fieldSink{
+		{"samlp.ResponseType", "InResponseTo", nil, []string{q + ".Id"}, true, ""},
+		{"saml.SubjectConfirmationDataType", "InResponseTo", nil, []string{q + ".Id"}, true, ""},
+		{"saml.AudienceRestrictionType", "Audience", nil, []string{"ext:iface:provider.IDPStorage.GetEntityByID#0.Metadata.EntityID"}, true, ""},
+	})
 	ls, s1 := vf.FieldStoreSources("samlp.ResponseType", "InResponseTo")
 	add("ResponseType.InResponseTo", ls, len(s1), []string{q + ".Id"}, []string{q + ".Id"}, true)
 	ls, s2 := vf.FieldStoreSources("saml.SubjectConfirmationDataType", "InResponseTo")
@@ -346,6 +352,10 @@ func (cx *Ctx) checkAttrFilter(r *Report) {
 		r.Fail("R-GUARD", "makeAttributeQueryResponse:provided", w.FnPos(fn), "the provided list is not built by appends (shape not recognised)")
 		return
 	}
+	nUnfiltered, nMatched := 0, 0
+	defer func() {
+		r.Check(nUnfiltered >= 1 && nMatched >= 1, "R-GUARD", "makeAttributeQueryResponse:stages", w.FnPos(fn), "both stages present: everything for an empty request, the matching attributes otherwise", fmt.Sprintf("the answer is built by %d 'everything' and %d 'matching' stages: one of the two cases of the filter is gone (requested attributes that match are not returned, or an empty request gets nothing)", nUnfiltered, nMatched))
+	}()
 	for i, ap := range appends {
 		key := fmt.Sprintf("makeAttributeQueryResponse:append#%d", i+1)
 		// every path reaching the append must carry the filter condition
@@ -403,8 +413,31 @@ func (cx *Ctx) checkAttrFilter(r *Report) {
 		case !userOnly:
 			r.Fail("R-GUARD", key, w.InstrPos(ap), "an element that is not one of the user's attributes (attributes.GetSAML()) is added to the answer: "+strings.Join(elemL, ", "))
 		case unfiltered:
-			r.Ok("R-GUARD", key, w.InstrPos(ap), "all user attributes, only when no attribute was requested")
+			nUnfiltered++
+			// every attribute of the user is passed on: no iteration of the loop skips the append
+			if iterationCanSkip(fx.info(fn), ap.Block()) {
+				r.Fail("R-GUARD", key, w.InstrPos(ap), "with nothing requested an iteration over the user's attributes can skip the append: the answer does not contain all of them")
+			} else {
+				r.Ok("R-GUARD", key, w.InstrPos(ap), "all user attributes, only when no attribute was requested")
+			}
 		case matched:
+			nMatched++
+			// the filter stage is entered only for a non-empty request (else an empty request gets nothing instead of everything)
+			nonEmpty := true
+			for _, pt := range pts {
+				has := false
+				for _, a := range pt.Atoms {
+					if a.Op == "EMPTY" && a.Neg && strings.HasPrefix(a.TA, "<#") && strings.HasSuffix(a.TA, "[]saml.AttributeType>") {
+						has = true
+					}
+				}
+				if !has {
+					nonEmpty = false
+				}
+			}
+			if !nonEmpty {
+				r.Fail("R-GUARD", key+":stage", w.InstrPos(ap), "the matching stage can be entered although the list of requested attributes is empty (the 'nothing requested' test does not cover every empty list): such a query is answered with no attributes instead of all")
+			}
 			r.Ok("R-GUARD", key, w.InstrPos(ap), "only under Name and NameFormat equal to the same requested attribute")
 		default:
 			r.Fail("R-GUARD", key, w.InstrPos(ap), "a user attribute is disclosed without both its Name and NameFormat matching a requested attribute (guards: "+strings.Join(atomStrings(atoms), " & ")+")")
